@@ -84,9 +84,10 @@ mod native {
 macro_rules! impl_sym_int {
     ($($t:ty),*) => {$(
         impl Sym for $t {
+            // the local is named so that the runner can find the solver's value in the CBMC trace
             #[cfg(kani)]
-            #[inline(always)]
-            fn sym() -> $t { kani::any() }
+            #[inline(never)]
+            fn sym() -> $t { let zv_sym_val: $t = kani::any(); zv_sym_val }
             #[cfg(not(kani))]
             fn sym() -> $t {
                 let b = native::pop(core::mem::size_of::<$t>());
@@ -101,9 +102,11 @@ impl_sym_int!(u8, u16, u32, u64, u128, usize, i8, i16, i32, i64, i128, isize);
 
 impl Sym for bool {
     #[cfg(kani)]
-    #[inline(always)]
+    #[inline(never)]
     fn sym() -> bool {
-        kani::any()
+        let zv_sym_val: u8 = kani::any();
+        kani::assume(zv_sym_val <= 1);
+        zv_sym_val == 1
     }
     #[cfg(not(kani))]
     fn sym() -> bool {
